@@ -87,7 +87,10 @@ def modelCompare (d : Desc) (impl : Option (Sv.Package × Sv.Module)) (slice : S
       let a := sliceTokens slice p m
       let b := sliceTokens slice ip im
       let full := p.render == ip.render && m.render == im.render
-      Json.mkObj [("status", "ok"), ("sliceEqual", a == b), ("fullEqual", full),
+      let hyp := match Model.createNetwork d with
+        | .ok g => Model.pairedGraphB g && Model.onlyLinksAtRoutersB g
+        | .error _ => false
+      Json.mkObj [("status", "ok"), ("sliceEqual", a == b), ("fullEqual", full), ("graphHyp", hyp),
                   ("diff", if a == b then Json.null else firstDiff a b)]
     | none => Json.mkObj [("status", "ok")]
 
